@@ -5,6 +5,10 @@
     buffer.py            Buffer._undo_stack / _redo_stack, save_to_undo_stack, undo, redo, reset
     key_binding/key_processor.py   KeyProcessor._call_handler  (is_repeat, handler.save_before)
     key_binding/bindings/basic.py  if_no_repeat                 (rule "save unless repeat")
+    key_binding/bindings/emacs.py, vi.py, named_commands.py   the undo bindings and the handlers of
+                                   the fully modelled key sets (`EKey`, `VKey` below)
+    (key_binding/key_bindings.py   KeyBindings.add must hand an explicit save_before on to the Binding:
+                                   /repo commit 3961882; before it the rules above were dead code)
 
   Conventions.
   * A snapshot is the pair (text, cursor_position) = `Buf`.
